@@ -1,7 +1,8 @@
 ---------------------------- MODULE Reset_Trace ----------------------------
 (* Trace validation for C13/Reset.  Each line of traces.ndjson is one history   *)
 (* recorded on a real container:                                                *)
-(*   [id, cfg (name of a ResetDefs!Configs entry), ev |-> << event ... >>]      *)
+(*   [id, cfg (name of a ResetDefs!Configs entry), nofile (RLIMIT_NOFILE of the *)
+(*    driver = of the container init), ev |-> << event ... >>]                  *)
 (*   run   : plants <<[k, m]>>, status, planted <<[k, top, errno]>>             *)
 (*   reset : ok                                                                 *)
 (*   list  : by ("host" through /proc/<init>/root | "prog" = a later program),  *)
@@ -22,9 +23,7 @@ TInit ==
   /\ t \in 1..N /\ l = 1 /\ nrun = 0
   /\ content = [m \in DOMAIN C(t).mounts |-> {}]
 
-Sum(S) == FoldSet(LAMBDA a, b : a + b, 0, S)   \* only used on sets of distinct pairs below
-CountOf(c) == LET ks == { e[1] : e \in c } IN
-  FoldSet(LAMBDA e, acc : acc + TopCount(e[1]), 0, c)
+CountOf(c) == FoldSet(LAMBDA e, acc : acc + TopCount(e[1]), 0, c)   \* top-level entries of a mount
 
 ERun(e) ==
   /\ e.status = "Normal"
@@ -38,16 +37,21 @@ ERun(e) ==
 EReset(e) ==
   LET r == ResetWholeP(C(t).parent, FALSE, content) IN
   /\ content' = r.c                     \* property layer: nothing is left, whatever Reset returned
-  /\ (e.ok = r.err => TLCSet(N + t, 1)) \* implementation layer: error exactly for a tmpfs inside a tmpfs
+  /\ LET stuck == \E m \in DOMAIN content : \E x \in content[m] : Unremovable(x[1], Traces[t].nofile)
+     IN (e.ok = (r.err \/ stuck) => TLCSet(N + t, 1))  \* implementation layer: error exactly for a tmpfs inside
+                                                        \* a tmpfs or a chain deeper than the descriptor limit
   /\ UNCHANGED nrun
 
+(* a listing that could not be taken (the listing program failed, the directory could not *)
+(* be read) judges nothing: flagged as a set-up problem (register 2N+t)                     *)
 EList(e) ==
   /\ Len(e.ls) = Len(C(t).mounts)
-  /\ (e.by = "prog" => e.status = "Normal")
-  /\ \A i \in DOMAIN e.ls :
-       LET kids == Children(C(t).parent, i) IN
-       /\ e.ls[i].n = CountOf(content[i]) + Cardinality(kids)
-       /\ (content[i] = {} => ToSet(e.ls[i].names) = { C(t).base[j] : j \in kids })
+  /\ IF (e.by = "prog" /\ e.status # "Normal") \/ \E i \in DOMAIN e.ls : e.ls[i].n < 0
+       THEN TLCSet(2 * N + t, 1)
+       ELSE \A i \in DOMAIN e.ls :
+              LET kids == Children(C(t).parent, i) IN
+              /\ e.ls[i].n = CountOf(content[i]) + Cardinality(kids)
+              /\ (content[i] = {} => ToSet(e.ls[i].names) = { C(t).base[j] : j \in kids })
   /\ UNCHANGED <<content, nrun>>
 
 TStep ==
@@ -60,9 +64,10 @@ TStep ==
 TSpec == TInit /\ [][TStep]_tvars
 
 Mark == TLCSet(t, IF TLCGet(t) < l - 1 THEN l - 1 ELSE TLCGet(t))
-ASSUME \A i \in 1..(2 * N) : TLCSet(i, 0)
+ASSUME \A i \in 1..(3 * N) : TLCSet(i, 0)
 Report ==
   ndJsonSerialize("bad.ndjson",
         SetToSeq({ [t |-> i, matched |-> TLCGet(i), j |-> "reject"] : i \in { j \in 1..N : TLCGet(j) < Len(Traces[j].ev) } })
-     \o SetToSeq({ [t |-> i, matched |-> TLCGet(i), j |-> "drift"] : i \in { j \in 1..N : TLCGet(N + j) = 1 } }))
+     \o SetToSeq({ [t |-> i, matched |-> TLCGet(i), j |-> "drift"] : i \in { j \in 1..N : TLCGet(N + j) = 1 } })
+     \o SetToSeq({ [t |-> i, matched |-> TLCGet(i), j |-> "setup"] : i \in { j \in 1..N : TLCGet(2 * N + j) = 1 } }))
 =============================================================================
